@@ -1473,6 +1473,10 @@ func (x *Exec) abstract(p *peer, s stamped) Msg {
 			// the router's answer to a refused ERROR message (not a request): not compared
 			return blank("IGNORED", s.t)
 		}
+		if m.Type == wamp.GOODBYE {
+			// the authorizer refused the session's GOODBYE: it has not left
+			p.left = false
+		}
 		r := blank("ERROR", s.t)
 		r.A = int(m.Type)
 		r.Req = int(m.Request)
